@@ -34,7 +34,9 @@ func checkC05(c *Ctx) {
 	c.Rule("C05-R5", "ChannelEvents closes its channel on every exit (deferred close in the entry block)")
 	c.Rule("C05-R6", "an input chunk queued for the parser goroutine owns its backing array (allocated per chunk): queued input cannot be overwritten by a later read")
 	c.Rule("C05-R7", "ChannelEvents holds at most one event: after receiving from the event queue it sends that event on the caller's channel (or returns) before it can receive again")
+	c.Rule("C05-R8", "no producer of events looks at the fill level of an event queue (len/cap) to decide whether to deliver: that is dropping by another name")
 	c.Expect("C05-R6", 1)
+	c.Expect("C05-R8", 1)
 	c.Expect("C05-R7", 1)
 	c.Expect("C05-R1", 6)
 	c.Expect("C05-R2", 2)
@@ -42,9 +44,9 @@ func checkC05(c *Ctx) {
 	c.Expect("C05-R4", 10)
 	c.Expect("C05-R5", 1)
 	c.Assume("Go channels are FIFO; one producer and one consumer per lane preserve order")
-	cfgs := []string{"linux"}
+	cfgs := []string{"linux", "wasm"} // the browser callbacks are event producers too
 	if c.Tier == "thorough" {
-		cfgs = append(cfgs, "wasm", "darwin")
+		cfgs = append(cfgs, "darwin")
 	}
 	for _, cfg := range cfgs {
 		p := c.P(cfg)
@@ -55,6 +57,7 @@ func checkC05(c *Ctx) {
 		c.curCfg = cfg
 		c05Sends(c, p)
 		c05Events(c, p)
+		c05FillLevel(c, p)
 		if cfg == "wasm" {
 			continue
 		}
@@ -98,7 +101,10 @@ func c05Sends(c *Ctx, p *Prog) {
 							sent = mi.X
 						}
 						tn := typeName(sent.Type())
-						okLossy := (tn == "*tcell.EventResize") || (short == "(*baseScreen).PostEvent")
+						// the terminfo and console screens may drop a resize notification (the next
+					// resize() sees the size anyway); the simulation, whose SetSize promises the
+					// event, and every other sender may not
+					okLossy := (tn == "*tcell.EventResize" && (short == "(*tScreen).resize" || short == "(*cScreen).resize")) || (short == "(*baseScreen).PostEvent")
 						c.Check(okLossy, "C05-R1", key+":lossy", p.pos(in.Pos()), "non-blocking send of "+tn+" (drops when the queue is full)")
 						continue
 					}
@@ -592,4 +598,36 @@ func selectCaseTest(sel *ssa.Select, idx int) *ssa.BasicBlock {
 		}
 	}
 	return nil
+}
+
+// c05FillLevel: len(ch)/cap(ch) on an event queue is legitimate only where the
+// API reports it (HasPendingEvent).  Anywhere else it is the first half of a
+// lossy send.
+func c05FillLevel(c *Ctx, p *Prog) {
+	bad := ""
+	n := 0
+	for _, fn := range p.modFns {
+		if fn.Pkg != p.Tcell {
+			continue
+		}
+		eachInstr(fn, func(in ssa.Instruction) {
+			call, ok := in.(*ssa.Call)
+			if !ok {
+				return
+			}
+			bi, ok := call.Call.Value.(*ssa.Builtin)
+			if !ok || (bi.Name() != "len" && bi.Name() != "cap") || len(call.Call.Args) != 1 {
+				return
+			}
+			ct, ok := call.Call.Args[0].Type().Underlying().(*types.Chan)
+			if !ok || typeName(ct.Elem()) != "tcell.Event" {
+				return
+			}
+			n++
+			if topFunc(fn).Name() != "HasPendingEvent" {
+				bad += fmt.Sprintf("%s consults %s of an event queue at %s; ", fn.Name(), bi.Name(), p.pos(in.Pos()))
+			}
+		})
+	}
+	c.Check(bad == "", "C05-R8", "event-queue:fill-level-not-consulted", "-", fmt.Sprintf("%d len/cap uses on event queues, all in HasPendingEvent %s", n, bad))
 }
